@@ -17,6 +17,29 @@ func GenConcItems(seed uint64, n int) []*Item {
 	var items []*Item
 	for i := 0; i < n; i++ {
 		g := r.Fork()
+		if g.Intn(3) == 0 {
+			// second family: no lock at all; every worker owns a cell, the join orders its writes before the reads
+			k := 2 + g.Intn(2)
+			var sb strings.Builder
+			sb.WriteString("import \"sync\"\n\nfunc F(a uint64) uint64 {\n\twg := new(sync.WaitGroup)\n")
+			for w := 0; w < k; w++ {
+				fmt.Fprintf(&sb, "\tp%d := new(uint64)\n", w)
+			}
+			fmt.Fprintf(&sb, "\twg.Add(%d)\n", k)
+			res := "a"
+			for w := 0; w < k; w++ {
+				fmt.Fprintf(&sb, "\tgo func() {\n\t\t*p%d = a*%d + %d\n", w, 2+g.Intn(5), g.Intn(50))
+				if g.Bool() {
+					fmt.Fprintf(&sb, "\t\t*p%d = *p%d + %d\n", w, w, 1+g.Intn(9))
+				}
+				sb.WriteString("\t\twg.Done()\n\t}()\n")
+				res += fmt.Sprintf(" + %d*(*p%d)", 100*(w+1), w)
+			}
+			fmt.Fprintf(&sb, "\twg.Wait()\n\treturn %s\n}\n", res)
+			items = append(items, &Item{ID: fmt.Sprintf("conc_gen_%d_%d", seed, i), Files: map[string]string{}, Main: sb.String(),
+				Calls: [][]string{{"F", fmt.Sprint(1 + g.Intn(9))}}})
+			continue
+		}
 		workers := 1 + g.Intn(2)
 		twoVars := g.Bool()
 		publish := g.Bool()
